@@ -119,7 +119,7 @@ def stepify(func, wrap_names, owner=None, extra_globals=None):
     else:
         mod = ast.Module(body=[fdef], type_ignores=[])
     ast.fix_missing_locations(mod)
-    g = dict(func.__globals__)
+    g = func.__globals__           # the live module namespace: later rebinding of module names (stubs) is seen
     g["_GENCALL_"] = gen_call
     if extra_globals:
         g.update(extra_globals)
